@@ -431,6 +431,16 @@ def witness_env(case, out, ob):
     for e in cands:
         if holds(e):
             return e
+    # search: vary only the variables that occur in the path condition / assumptions around the nominal point
+    rng = np.random.default_rng(7)
+    names = sorted(names)
+    for t in range(400):
+        e = dict(env)
+        for n in names:
+            if n in e:
+                e[n] = e[n] * float(np.exp(rng.uniform(-2.5, 1.5))) * (1 if rng.random() < 0.9 else -1)
+        if holds(e):
+            return e
     return None
 
 
@@ -460,8 +470,15 @@ def replay_point(case, env, meta, tol=1e-6):
 
 def family_of(case, ob):
     base = case.name.split("[")[0]
-    return "%s partial d(%s)/d(%s) path{%s}%s" % (base, ob.meta["of"], ob.meta["wrt"], ob.meta["path"],
+    return "%s partial d(%s)/d(%s) path{%s}%s" % (base, ob.meta["of"], ob.meta["wrt"], stable_path(ob.meta["path"]),
                                                   " stale-storage" if ob.meta.get("stale") else "")
+
+
+def stable_path(label):
+    """path labels print truncated sub-expressions as #<node id>; ids differ between runs and mesh sizes"""
+    import re
+
+    return re.sub(r"#\d+", "..", label)
 
 
 def process(case, out, rep, obs, replay_fn, family_fn, max_replays_per_family=2):
